@@ -355,10 +355,18 @@ def classify_report(job, rep, benign, miri_full):
         if not rep["kind"].startswith("data race"):
             return ("violation", "tsan:%s:%s" % (rep["kind"].replace(" ", "_"), rep["a"]), rep["kind"])
         a, b = rep["a"], rep["b"]
+        w = rep.get("writes", [True, True])
         if a == "?" or b == "?":
             other = b if a == "?" else a
             h = [x for x in rep["harness"] if x != "?"]
             if h:
+                # loan-style API: the user writes the cell through a pointer handed out by the
+                # structure; the optimistic reader copy racing with that write is the documented one
+                if w.count(False) == 1:
+                    rd, user_writes = (a, b == "?") if not w[0] else (b, a == "?")
+                    for pair in benign:
+                        if pair.get("user_write_ok") and user_writes and re.search(pair["read"], rd):
+                            return ("benign", pair["name"], "")
                 return ("violation", "tsan:user_memory_race:%s" % other, "data race on memory the harness reads/writes as API user (%s) vs %s" % (h[0], other))
         w = rep.get("writes", [True, True])
         if w.count(False) == 1:  # exactly one read: write/write pairs are never benign
